@@ -20,6 +20,7 @@ R1.13 the parameter list a signature is rendered from is sorted required-first a
 R1.12 spec text placed after a `#` has every line boundary removed (otherwise the rest of the description is parsed as code)  [= R15.1, COMMENT holes]
 R1.11 RenderContext's completion of "incomplete" internal module paths never applies to a module of the core package
 R1.10 the tag client modules client.py imports are the ones the endpoints emitter writes (grouping agreement, rules of C07)
+R1.23 the regenerated exception-alias module imports ClientError and ServerError unconditionally (it defines aliases for all clients of the core)  [= R11.4]
 R1.22 a method of the render context that registers imports is never skipped on account of a record that outlives the per-file reset of the import collector
 R1.16 the overload signatures (parameters in document order) carry no default in front of the keyword-only `*`
 R1.15 enum members of one class get pairwise distinct names (duplicate member = TypeError at import)            [= R20.2, enum members]
@@ -134,6 +135,9 @@ def run(repo: Repo, rep: Report, tier: str) -> None:
     from rules._reuse import reuse
 
     reuse(repo, rep, "c07", {"R7.4": "R1.10", "R7.5": "R1.10"})
+    # R1.23: the alias module of a shared core is regenerated for the codes of *all* its clients; the base classes it derives from are imported
+    # whatever the current document declares (else `class InternalServerError(ServerError)` without the import: the core cannot be imported) [= R11.4]
+    reuse(repo, rep, "c11", {"R11.4": "R1.23"})
 
     # ---------------------------------------------------------------- R1.6 a quoted forward reference is never an operand of `|`
     # `"Node" | None` is evaluated when the dataclass is created: str | None raises TypeError, the model module cannot be imported.
